@@ -15,6 +15,7 @@ type GraphOpts struct {
 	MaxRel      int  // relations per object type (default 4)
 	SmallModels bool // fewer types/relations (used where orders are enumerated exhaustively)
 	Big         bool // up to 4 object types x 6 relations, operator nesting one level deeper (thorough tier)
+	Interlock   bool // in a fifth of the models, redefine the relations of one object type as a random web of interlocking tuple cycles
 }
 
 var (
@@ -131,6 +132,9 @@ func GraphModel(t *rapid.T, o GraphOpts) *Model {
 		}
 		m.Types = append(m.Types, td)
 	}
+	if o.Interlock && nRel >= 3 && rapid.IntRange(0, 4).Draw(t, "interlock") == 0 {
+		interlock(t, m, nTerm, nRel)
+	}
 	if useCond {
 		m.Conds = []Condition{
 			{Name: "c1", Params: []Param{{Name: "x", Type: "int"}}, Expr: "x > 1"},
@@ -203,4 +207,58 @@ func (c *graphCtx) rewrite(depth int) *Rewrite {
 	default:
 		return &Rewrite{Kind: Difference, Kids: []*Rewrite{c.rewrite(depth + 1), c.rewrite(depth + 1)}}
 	}
+}
+
+// interlock redefines relations a.. of the first object type as unions whose operands reach each other through
+// tuple hops (userset restrictions, tuple-to-userset) in a random, mostly strongly connected pattern, with computed
+// chords pointing only to later relations (so that no tuple-free cycle arises) and at least one exit to a user type:
+// several interlocking tuple cycles with reconverging paths, nearly always a well-founded model.
+func interlock(t *rapid.T, m *Model, nTerm, nRel int) {
+	var td *TypeDef
+	for i := range m.Types {
+		if len(m.Types[i].Rels) > 0 {
+			td = &m.Types[i]
+			break
+		}
+	}
+	if td == nil {
+		return
+	}
+	k := rapid.IntRange(3, nRel).Draw(t, "ilk")
+	for i := 0; i < k; i++ {
+		rel := &td.Rels[1+i] // Rels[0] is the tupleset relation p
+		u := &Rewrite{Kind: Union}
+		var restr []Restriction
+		if i == 0 || rapid.IntRange(0, 2).Draw(t, "ilexit") == 0 {
+			x := Restriction{Type: gTermTypes[rapid.IntRange(0, nTerm-1).Draw(t, "ilterm")]}
+			if rapid.IntRange(0, 3).Draw(t, "ilwild") == 0 {
+				x.Wild = true
+			}
+			restr = append(restr, x)
+		}
+		for n, cnt := 0, rapid.IntRange(1, 2).Draw(t, "ilhops"); n < cnt; n++ {
+			j := rapid.IntRange(0, k-1).Draw(t, "iltarget")
+			if rapid.Bool().Draw(t, "ilttu") {
+				u.Kids = append(u.Kids, &Rewrite{Kind: TTU, Rel: gRelNames[j], Tupleset: "p"})
+			} else {
+				restr = append(restr, Restriction{Type: td.Name, Rel: gRelNames[j]})
+			}
+		}
+		if i < k-1 && rapid.IntRange(0, 2).Draw(t, "ilchord") == 0 {
+			u.Kids = append(u.Kids, &Rewrite{Kind: Computed, Rel: gRelNames[rapid.IntRange(i+1, k-1).Draw(t, "ilchordTo")]})
+		}
+		if len(restr) > 0 {
+			u.Kids = append([]*Rewrite{{Kind: This}}, u.Kids...)
+		}
+		switch len(u.Kids) {
+		case 0:
+			u = &Rewrite{Kind: This}
+			restr = []Restriction{{Type: gTermTypes[0]}}
+		case 1:
+			u = u.Kids[0]
+		}
+		rel.Rw, rel.Restr = u, restr
+	}
+	// the tupleset of this type must point back to the type itself for the tuple-to-userset hops to stay inside the web
+	td.Rels[0].Restr = append([]Restriction{{Type: td.Name}}, td.Rels[0].Restr...)
 }
